@@ -593,6 +593,16 @@ class Builtins:
             facts = [z3.ForAll([i], z3.Implies(z3.And(i >= 0, i < g.n), f)) for f in g.facts]
             cont = lambda k: z3.ForAll([j], z3.Implies(z3.And(j >= 0, j < k, self.gen_at(g, keep, j)),
                                                        z3.And(self.gen_at(g, g.ok, j), self.gen_at(g, good, j))))
+            # least-number principle (valid by well-ordering; the solver cannot derive it): if not every element lets the
+            # scan continue, there is a FIRST one that does not
+            kk = th.fresh('kmin', th.I)
+            pj = lambda t: z3.And(self.gen_at(g, g.ok, t), self.gen_at(g, good, t))
+            lnp = z3.Implies(z3.Not(z3.ForAll([j], z3.Implies(z3.And(j >= 0, j < g.n, self.gen_at(g, keep, j)), pj(j)))),
+                             z3.Exists([kk], z3.And(kk >= 0, kk < g.n, self.gen_at(g, keep, kk), z3.Not(pj(kk)), cont(kk))))
+            if self.lemma_sink is not None:
+                self.lemma_sink.append(lnp)
+            else:
+                st.add(lnp)
             s_all = st.fork().add(*facts).add(cont(g.n))
             outs.append((VBool(z3.BoolVal(is_all)), s_all))
             k = th.fresh('k', th.I)
@@ -682,7 +692,7 @@ class Builtins:
         ec = th.fn('re_compile_exc', th.Val, th.Exc)(s)
         ev = th.fn('re_compile_excv', th.Val, th.Val)(s)
         s_ok = st.fork().add(z3.Not(cr), th.isc('Pattern')(res.term))
-        s_ex = st.fork().add(cr, ec != th.exc['BaseException'])
+        s_ex = st.fork().add(cr)
         # assumed contract: re.compile raises SOME Exception (witnesses: re.error for '(' , OverflowError for 'a{4294967296}')
         return [(res, s_ok), (Raised(VExc(ec, ev, 're.compile')), s_ex)]
 
@@ -781,7 +791,7 @@ class Builtins:
         if spec == 'any':
             ec = th.fn(f'methexc_{meth}_{len(a) - 1}', *([th.Val] * len(a)), th.Exc)(*a)
             s_ok = st.fork().add(z3.Not(cr))
-            s_ex = st.fork().add(cr, ec != th.exc['BaseException'])
+            s_ex = st.fork().add(cr)
             return [(res, s_ok), (Raised(VExc(ec, th.fresh('excv'), origin)), s_ex)]
         alts = [(z3.Not(cr), res)]
         ecv = th.fn(f'methexc_{meth}_{len(a) - 1}', *([th.Val] * len(a)), th.Exc)(*a)
@@ -804,6 +814,9 @@ class Builtins:
                 self.assign_target(target, newb, st, node, rebinding=True)
         if meth in ('append', 'add', 'pop', 'update', 'extend', 'setdefault', 'remove', 'discard') and rebind is not None:
             self.frame_ok(st, f'{self.src(node)[:60]}')
+        if isinstance(b, VTuple) and b.is_list and meth == 'append':
+            store(VTuple(b.items + (args[0],), True))
+            return [(self.none(), st)]
         if isinstance(b, VListB) or (isinstance(b, VTuple) and b.is_list):
             if isinstance(b, VTuple):
                 arr = th.dflt_seq
@@ -969,6 +982,8 @@ class Builtins:
             return [(VBool(th.fn('val_lt', th.Val, th.Val, th.B)(V(0), V(1))), st)]
         if name == 'card':
             return self.bi_len(args, kwargs, st, node)
+        if name == 'isfinite':
+            return [(VBool(th.fn('isfinite', th.Val, th.B)(V(0))), st)]
         if name == 'zlen':
             a_, b_ = self.toInt(args[0], st), self.toInt(args[1], st)
             return [(VInt(z3.If(b_ < a_, b_, a_)), st)]
